@@ -59,3 +59,22 @@ pub struct Neither(pub Rc<u8>);
 pub struct NeitherWrapped(pub Wrap<Rc<u8>>);
 /// raw pointer: !Send, !Sync
 pub struct RawPtr(pub *const u8);
+
+// ---- the same menu with `Copy` types (data that may stay uninitialised must be `Copy`) ------
+
+/// Send + Sync, Copy
+#[derive(Clone, Copy, Default)]
+pub struct BothCopy(pub u32);
+/// Send, !Sync, Copy
+#[derive(Clone, Copy, Default)]
+pub struct SendOnlyCopy(pub u8, pub PhantomData<Cell<u8>>);
+/// !Send, Sync, Copy
+#[derive(Clone, Copy)]
+pub struct SyncOnlyCopy(pub PhantomData<*const u8>, pub u8);
+unsafe impl Sync for SyncOnlyCopy {}
+/// !Send, !Sync, Copy
+#[derive(Clone, Copy)]
+pub struct NeitherCopy(pub *const u8);
+/// !Send, !Sync, Copy (a shared reference to a !Sync value)
+#[derive(Clone, Copy)]
+pub struct NeitherRefCopy(pub &'static Cell<u8>);
